@@ -266,22 +266,27 @@ def _check(ctx):
             if err is None:
                 ctx.violation(f"C10/limit-not-enforced/unterminated-{where}", {"cfg": cfg.spec(), "stream": hx(data), "cuts": [len(x) for x in segs]},
                               f"an unterminated {where} of {len(data)} bytes was accepted read after read (limits {cfg.max_line}/{cfg.max_field})")
-    # mutations + raw bytes
+    # mutations + raw bytes; the first ones come from a fixed stream (every mutation class, on every seed)
+    fixed = H.deterministic_mutants(6 if ctx.quick else 16)
     n = 1500 if ctx.quick else 40000
-    for i in range(n):
+    for i in range(n + len(fixed)):
         r = rng.random()
         response = r < 0.35
         lax = response and r < 0.25
+        if i < len(fixed):
+            response = fixed[i][2]; lax = response
         cfg = H.Cfg(response=response, lax=lax, read_until_eof=response and rng.random() < 0.5)
-        if rng.random() < 0.5:
+        if rng.random() < 0.5 and i >= len(fixed):
             cfg.max_line, cfg.max_field, cfg.max_headers = rng.randint(8, 80), rng.randint(8, 80), rng.randint(2, 10)
         kind = "valid"
-        q = rng.random()
-        if q < 0.2:
+        q = rng.random() if i >= len(fixed) else 2.0
+        if i < len(fixed):
+            data, kind = fixed[i][0], "fixed:" + fixed[i][1]
+        elif q < 0.2:
             m = rng.choice([64, 200, 1000, 9000])
             alphabet = rng.choice([bytes(range(256)), b"\r", b"\r\n ", b"a", b"a:\t ", b"0123456789abcdef;\r"])
             data = bytes(rng.choice(alphabet) for _ in range(rng.randint(1, m))); kind = "raw"
-        else:
+        elif i >= len(fixed):
             data = H.gen_response(rng, lax) if response else b"".join(H.gen_request(rng) for _ in range(rng.choice([1, 2])))
             if rng.random() < 0.8:
                 data, kind = H.mutate(rng, data)
